@@ -367,6 +367,84 @@ def run_jwt_at(ctx):
         time.time = real_time
 
 
+def run_jwt_at_histories(ctx):
+    """One long-lived RFC 9068 validator whose get_jwks() answers with the provider's CURRENT key set (a dict, a KeySet): after a
+    rotation under the same kid the old key's tokens are refused and the new key's served; plus the RFC 7523 resource validator
+    with look-alikes of its configured issuer; plus string-valued groups / roles / entitlements through the Flask protector's
+    acquire_token."""
+    from authlib.oauth2.rfc7523 import JWTBearerTokenValidator as V7523
+    real_time = time.time
+    time.time = lambda: NOW
+    try:
+        ka = JsonWebKey.import_key({"kty": "oct", "k": "c2VjcmV0LWtleS1vbmUtMDAwMDAwMDAwMDAwMDAwMA", "kid": "k"})
+        kb = JsonWebKey.import_key({"kty": "oct", "k": "c2VjcmV0LWtleS10d28tMDAwMDAwMDAwMDAwMDAwMA", "kid": "k"})
+        claims = {"iss": ISS, "sub": "u", "aud": RS, "exp": NOW + 60, "iat": NOW, "client_id": "c", "jti": "j", "scope": "a"}
+        tok = {n: jwt.encode({"alg": "HS256", "kid": "k", "typ": "at+jwt"}, claims, k).decode() for n, k in (("A", ka), ("B", kb))}
+        for form in ("dict", "keyset"):
+            current = [ka]
+
+            class V(JWTBearerTokenValidator):
+                def get_jwks(self):
+                    ks = KeySet(list(current))
+                    return ks.as_dict() if form == "dict" else ks
+            rp = ResourceProtector()
+            rp.register_token_validator(V(issuer=ISS, resource_server=RS))
+            for step, (set_to, present, want) in enumerate(((ka, "A", True), (ka, "B", False), (kb, "B", True), (kb, "A", False), (ka, "A", True), (ka, "B", False))):
+                current[:] = [set_to]
+                got = run_impl(rp, "Bearer " + tok[present], "a")
+                case = {"jwt_at_history": form, "step": step, "published": "A" if set_to is ka else "B", "presented": present}
+                ctx.case(case, ("at-history", form, step), "jwt-at-history:%s" % got[0])
+                if (got[0] == "serve") != want:
+                    ctx.violation("C10:jwt-at:key-rotation:%s" % ("served-old-key" if got[0] == "serve" else "refused-current-key"),
+                                  "after the provider's key set changed under the same kid, a long-lived validator %s a token signed with the %s key" %
+                                  ("served" if got[0] == "serve" else "refused", "withdrawn" if got[0] == "serve" else "current"), case)
+        # RFC 7523 resource validator: the configured issuer, compared as a whole
+        issuer = "https://as.example.com/realms/prod-eu"
+        rp = ResourceProtector()
+        rp.register_token_validator(V7523(b"secret-key-one-0000000000000000", issuer=issuer))
+        for iss, want in ((issuer, True), (issuer[:-3], False), ("https://as.example.com", False), (issuer + "x", False), (issuer.upper(), False), ("prod-eu", False),
+                          ([issuer], False), (None, False), ("", False)):
+            c2 = {"sub": "u", "exp": NOW + 60, "iat": NOW, "client_id": "c", "grant_type": "x", "scope": "a"}
+            if iss is not None:
+                c2["iss"] = iss
+            t = jwt.encode({"alg": "HS256"}, c2, b"secret-key-one-0000000000000000").decode()
+            got = run_impl(rp, "Bearer " + t, "a")
+            case = {"jwt_7523_issuer": iss, "configured": issuer}
+            ctx.case(case, ("7523-issuer", json.dumps(iss)), "jwt-7523:%s" % got[0])
+            if got[0] == "escapes":
+                ctx.violation("C10:jwt-7523:escapes:%s" % got[1], "the RFC 7523 resource validator raised an unhandled exception", case)
+            elif (got[0] == "serve") != want:
+                ctx.violation("C10:jwt-7523:issuer:%s" % ("served" if got[0] == "serve" else "refused"), "the RFC 7523 resource validator %s a token whose issuer is %s the configured one" %
+                              ("served" if got[0] == "serve" else "refused", "not" if not want else ""), case)
+        # Flask protector, acquire_token called directly with a STRING requirement for groups / roles / entitlements (one alternative)
+        from flask import Flask
+        from authlib.integrations.flask_oauth2 import ResourceProtector as FlaskRP
+        rp9068, keys = at_setup()
+        frp = FlaskRP()
+        frp.register_token_validator(rp9068._token_validators["bearer"])
+        app = Flask("verif-c10-acquire")
+        k1 = keys["k1"][0]
+        for cname in ("groups", "roles", "entitlements"):
+            for have, want in ((["admins"], True), (["s"], False), (["a", "users"], False), (["admin"], False), ("admins", True), (["users", "admins"], True)):
+                c3 = dict(claims, **{cname: have})
+                t = jwt.encode({"alg": "HS256", "kid": "k1", "typ": "at+jwt"}, c3, k1).decode()
+                with app.test_request_context("/x", headers={"Authorization": "Bearer " + t}):
+                    try:
+                        frp.acquire_token("a", **{cname: "admins"})
+                        got = "serve"
+                    except OAuth2Error as e:
+                        got = "refuse:%s" % e.error
+                    except Exception as e:  # noqa: BLE001
+                        got = "escapes:%s" % type(e).__name__
+                case = {"flask_acquire_claim": cname, "token_has": have, "required": "admins"}
+                ctx.case(case, ("flask-acquire", cname, json.dumps(have)), "flask-acquire:%s" % got.split(":")[0])
+                if (got == "serve") != want:
+                    ctx.violation("C10:flask:acquire-token-string-requirement:%s" % ("served" if got == "serve" else "refused"),
+                                  "acquire_token(%s=\"admins\") %s a token whose %s are %r" % (cname, "served" if got == "serve" else "refused (%s)" % got, cname, have), case)
+    finally:
+        time.time = real_time
+
+
 def run_sqla(ctx):
     """The validator most applications use: sqla_oauth2.create_bearer_token_validator over token rows (the repository's
     token mixin, in-memory SQLite).  What is presented is looked up as an ACCESS token only: the refresh string of the
@@ -490,6 +568,7 @@ def run(ctx):
     run_django(ctx)
     run_flask(ctx)
     run_jwt_at(ctx)
+    run_jwt_at_histories(ctx)
 
 
 def run_case(ctx, case):
@@ -497,6 +576,8 @@ def run_case(ctx, case):
         return run_sqla(ctx)
     if case.get("django_protector"):
         return run_django(ctx)
+    if "jwt_at_history" in case or "jwt_7523_issuer" in case or "flask_acquire_claim" in case:
+        return run_jwt_at_histories(ctx)
     if case.get("jwt_at"):
         rp, keys = at_setup()
         real_time = time.time
